@@ -670,7 +670,8 @@ theorem vsInsert_prefix_refines (s : State F) (fuel n m : Nat) (hv : VS s n) (hm
     ∃ sP : State F, Gen.IL.vsInsert.run s fuel = exec fuel insFixup sP ∧ sP.ctl = .run ∧ VS sP n ∧
       Linked (sP.ia "tree_nodes") n (-1) sh' ∧ sh'.idxs.Nodup ∧
       absT (sP.fa "tree_vals") (sP.ia "tree_nodes") sh' = (insCoreC (valNode s) (absT V N (.node l i rr))).1 ∧
-      sP.ienv "inserted" = nid ∧ sP.ienv "root" = i ∧ vAt (sP.fa "tree_vals") (n - 1) 7 = vAt V (n - 1) 7 := by
+      sP.ienv "inserted" = nid ∧ sP.ienv "root" = i ∧ vAt (sP.fa "tree_vals") (n - 1) 7 = vAt V (n - 1) 7 ∧
+      nAt (sP.ia "tree_nodes") (n - 1) 0 = nAt N (n - 1) 0 := by
   intro V N
   simp only [insShape]
   -- the position of the empty slot
@@ -801,7 +802,8 @@ theorem vsInsert_prefix_refines (s : State F) (fuel n m : Nat) (hv : VS s n) (hm
   obtain ⟨c1, c2, c3, c4, c5, c6⟩ := h3
   generalize hs3 : exec fuel insPropLoop s2 = s3 at c1 c2 c3 c4 c5 c6
   refine ⟨s3, ?_, c1, ?_, by rw [c2]; exact hLnew, hNnew, ?_, by rw [c6 _ (by decide) (by decide)]; exact b17,
-    by rw [c6 _ (by decide) (by decide), b18]; exact hroot1, ?_⟩
+    by rw [c6 _ (by decide) (by decide), b18]; exact hroot1, ?_,
+    by rw [c2]; exact b15 (n - 1) (by omega) (by omega) 0 (by decide)⟩
   · -- the program is the prefix followed by the fixup
     simp only [Prog.run, vsInsert_body, insDesc0Items]
     rw [exec_seqK, exec_seq_assoc, exec_seq_run _ _ _ _ (by rw [← insDesc0Items, hs1]; exact a1), ← insDesc0Items, hs1]
